@@ -4,7 +4,8 @@ Exactly one managed thread runs at any time (it "holds the baton").  At every *y
 the running thread asks the policy which thread runs next; if it is another one, it hands the
 baton over through that thread's semaphore and sleeps on its own.  Yield points are
 
-  * the scheduler-aware primitives below (`SchedLock.acquire/release`, `SchedEvent.wait`),
+  * the scheduler-aware primitives below (`SchedLock.acquire/release`, `SchedEvent.wait/set`,
+    `SchedThread.join`),
   * whatever the harness wraps (socket send/receive, shared attribute accesses, call entry),
   * in `line` granularity, every source line of the files named in `trace_files`
     (`sys.settrace` 'line' events).
@@ -60,6 +61,7 @@ class Scheduler(object):
         self.record = None           # optional list of (enabled tuple, chosen, prev) per decision
         self.log = []                # (tid, event tuple): shared accesses in execution order
         self.on_idle = None          # called when nothing is enabled; returns True if it changed that
+        self.mute = False            # set by the harness' own clean-up: what follows is not part of the run
         self._main = _threading.Semaphore(0)
         self._idents = {}
 
@@ -123,7 +125,8 @@ class Scheduler(object):
 
     # ------------------------------------------------------------------ the core
     def emit(self, *ev):
-        self.log.append((self.cur, ev))
+        if not self.mute:
+            self.log.append((self.cur, ev))
 
     def yield_point(self, kind, info=None, enabled=None):
         """Called by the baton holder before it performs the operation `kind`."""
@@ -299,8 +302,11 @@ class SchedLock(object):
 
 
 class SchedEvent(object):
-    """Replacement for `threading.Event`.  `wait(timeout)` with a time-out is a virtual timer:
-    it elapses (returns False) `budget` times, after that it blocks until `set()`."""
+    """Replacement for `threading.Event`.  `wait(timeout)` with a time-out is a virtual timer: each time
+    the waiting thread is scheduled, the wait ends — with True if the flag is set by then, else the
+    interval has elapsed (False; at most `budget` times, after that it blocks until `set()`).  WHEN the
+    interval elapses relative to the other threads is therefore a scheduling decision like any other
+    ('tick' / 'kaExit' in the log); `set()` is a scheduling point too ('stopSet')."""
 
     def __init__(self, sched, budget=0):
         self.sched = sched
@@ -308,6 +314,12 @@ class SchedEvent(object):
         self.budget = budget
 
     def set(self):
+        s = self.sched
+        if s.active() and not s.aborted:
+            s.yield_point('set', self)
+            self.flag = True
+            s.emit('stopSet')
+            return
         self.flag = True
 
     def clear(self):
@@ -327,8 +339,10 @@ class SchedEvent(object):
             return True
         s.yield_point('timer', self, enabled=lambda: self.flag or self.budget > 0)
         if self.flag:
+            s.emit('kaExit')
             return True
         self.budget -= 1
+        s.emit('tick')
         return False
 
 
@@ -351,6 +365,17 @@ class SchedThread(object):
         return self.tid is not None and not self.sched.threads[self.tid].done
 
     def join(self, timeout=None):
+        """A blocking join is enabled once the target has terminated ('join' in the log); a join with a
+        time-out is a scheduling point that does not wait."""
+        s = self.sched
+        if self.tid is None or not s.active() or s.aborted:
+            return None
+        if timeout is not None:
+            s.yield_point('join-timeout', self)
+            return None
+        target = s.threads[self.tid]
+        s.yield_point('join', self, enabled=lambda: target.done)
+        s.emit('join')
         return None
 
 
@@ -378,6 +403,16 @@ class ThreadingShim(object):
         t = SchedThread(self.sched, *a, **kw)
         self.spawned.append(t)
         return t
+
+    def current_thread(self):
+        """The shim's Thread object when called from a thread it started, else the real one."""
+        if self.sched.active():
+            for t in self.spawned:
+                if t.tid is not None and t.tid == self.sched.cur:
+                    return t
+        return _threading.current_thread()
+
+    currentThread = current_thread
 
     def __getattr__(self, name):
         return getattr(_threading, name)
